@@ -52,7 +52,7 @@ def build(rng):
         nm = "n%d" % k
         a, b = rng.choice(names), rng.choice(names)
         form = rng.choice(["arith", "arith", "decider", "sel", "alias", "const", "merge", "memread", "call", "bundle", "proj",
-                           "dup", "dup", "foldcall", "subexpr", "coord"])
+                           "dup", "dup", "foldcall", "subexpr", "coord", "coordnamed"])
         if form == "dup":
             # the same expression as an earlier named result: the optimiser shares the node, both names stay visible
             prev = [s_ for s_ in prog if s_[0] in ("sig", "bun") and kinds.get(s_[1]) in ("arith", "decider", "sel", "proj", "bundle", "call")]
@@ -84,6 +84,19 @@ def build(rng):
             prog.append(["set", "lampc%d" % k, "enable", ["c", ">", ["v", cs], ["n", 0]]])
             prog.append(["sig", nm, copy.deepcopy(ce)])
             kinds[nm] = "arith"
+            continue
+        if form == "coordnamed":
+            # a named signal used as a place() coordinate and read again afterwards
+            cs = "cs%d" % k
+            prog.append(["input", cs, types.fresh(), rng.randint(1, 4)])
+            kinds[cs] = "input"
+            prog.append(["sig", nm, ["b", "+", ["v", cs], ["n", 2]]])
+            prog.append(["place", "lampd%d" % k, "small-lamp", ["v", nm], ["n", 50 + 2 * k], None])
+            prog.append(["set", "lampd%d" % k, "enable", ["c", ">", ["v", cs], ["n", 0]]])
+            prog.append(["sig", nm + "y", ["p", ["b", "*", ["v", nm], ["n", 3]], types.fresh()]])
+            kinds[nm] = "arith"
+            kinds[nm + "y"] = "arith"
+            names.append(nm)
             continue
         if form == "subexpr":
             # a named result that is a sub-expression of the next one
